@@ -188,6 +188,17 @@ class VModule(V):
         self.py = py
 
 
+class VLive(V):
+    """An immutable library object read from the live module (a dataclasses.Field, its metadata mapping, ...): attribute
+    reads and calls with constant arguments are evaluated concretely on it (A-LIB: these objects are never mutated)."""
+
+    def __init__(self, obj):
+        self.obj = obj
+
+    def __repr__(self):
+        return f"VLive({self.obj!r:.60})"
+
+
 class VGhostNS(V):
     """The `ghost` namespace object."""
 
